@@ -36,7 +36,7 @@ CHECKS = {
              "a second reader idiom, in-place big-endian accumulation with two's-complement correction, is recognised and its "
              "threshold judged exactly); B4 nobody else defines to_bytes; B5 every valid set fits its "
              "width (exhaustive over 102 primitive types). These are necessary conditions of the round trip; byte equality "
-             "on concrete inputs is a value clause and is not decided. B1 also as a guard table: which width / signedness reaches int.to_bytes under which outcome of `<param> is None`. B7 (= C04-V4): NamedRange.by_number(n) is the member with value n. B8 no generator of the decode core is created and discarded (= C01-W12 = C03-R9). B9 (= C07-NI-1) strict mode never turns a size error into a warning (an accepted input would then miss the skipped bytes).",
+             "on concrete inputs is a value clause and is not decided. B1 also as a guard table: which width / signedness reaches int.to_bytes under which outcome of `<param> is None`. B7 (= C04-V4): NamedRange.by_number(n) is the member with value n. B8 no generator of the decode core is created and discarded (= C01-W12 = C03-R9). B9 (= C07-NI-1) strict mode never turns a size error into a warning (an accepted input would then miss the skipped bytes). B10 (= C01-W0) the decode facets of the snapshot (a field re-encodes to the bytes at its own offset only if decoded with its declared width).",
         note="trusted: CPython ast; int.from_bytes/int.to_bytes are mutual inverses for equal (width, order, signedness).",
         technique="reader/writer agreement by def-use comparison + who-defines rule + exhaustive table check",
         design="4/C02",
@@ -70,7 +70,7 @@ CHECKS = {
              "V4 the membership chain (_INT.is_valid, ValidValues.__contains__/get, NamedRange, enum class membership) has "
              "the membership meaning - decided as decision tables over path summaries, NamedRange as an abstract data type (the "
              "constructor's bindings substituted into the observers' conditions: member exactly for start <= n < end); V5 valid-value and naming facets of all 719 pinned types (exhaustive); V6 unknown "
-             "command code -> ValueConstraintViolatedError with ValidValues(TPM_CC). The iff over concrete values is not decided. V6 also checks the declared type named by the unknown-command-code error. V7 (= C15-F1) every front-end hands the caller's options and the decoder's default mode on. V1's raise-after-event is judged per feasible path. V8 (= C01-W0) the decode facets of the snapshot: which allowed set a field is checked against is decided by its declared type. V6 also covers the union walker's value error (it carries the selector, declares type(selector), points at the union's path).",
+             "command code -> ValueConstraintViolatedError with ValidValues(TPM_CC). The iff over concrete values is not decided. V6 also checks the declared type named by the unknown-command-code error. V7 (= C15-F1) every front-end hands the caller's options and the decoder's default mode on. V1's raise-after-event is judged per feasible path. V8 (= C01-W0) the decode facets of the snapshot: which allowed set a field is checked against is decided by its declared type. V6 also covers the union walker's value error (it carries the selector, declares type(selector), points at the union's path). V9 Canonical's own mode parameter defaults to strict and is handed to the front-end unchanged.",
         note="trusted: CPython ast; E1 model (guards G1-G7); 'first offending field' relies on C01-W4 ordering.",
         technique="CFG dominance + def-use + who-may-call rule + pinned valid-value tables",
         design="4/C04",
@@ -84,7 +84,7 @@ CHECKS = {
              "errors carry the running command code, assigned only from the <root>.commandCode event. E3: the silent "
              "end-of-input return is control dependent on the stream type, the depleted flag and a root event; the error "
              "classes store exactly the surplus bytes / command code they are given (path summaries of their constructors). Decides the "
-             "shape of the pump on all paths, not which events precede the error for a concrete truncation point. Also: the running command code is captured; boundary test polarity; handler exits of the pump (a finished processor is never resumed, constraint errors are re-raised on every path). E1 also: every superfluous error is given the surplus bytes; E3 accepts the boundary test by event type for exactly {Command, Response}. E4 (= C01-W0) the decode facets of the snapshot (a table entry that is too small absorbs a truncation).",
+             "shape of the pump on all paths, not which events precede the error for a concrete truncation point. Also: the running command code is captured; boundary test polarity; handler exits of the pump (a finished processor is never resumed, constraint errors are re-raised on every path). E1 also: every superfluous error is given the surplus bytes; E3 accepts the boundary test by event type for exactly {Command, Response}. E4 (= C01-W0) the decode facets of the snapshot (a table entry that is too small absorbs a truncation). E5 Canonical's own mode parameter defaults to strict and is handed to the front-end unchanged (the errors are raised, not wrapped, for a caller who says nothing).",
         note="trusted: CPython ast; generator send/StopIteration semantics; processor protocol (C10-T1). The events emitted "
              "before the error (value clause) are not decided.",
         technique="CFG + typestate abstract interpretation (path-sensitive on depleted flag / look-ahead byte), def-use, control dependence",
@@ -145,7 +145,7 @@ CHECKS = {
              "being TPMA_SESSION masks in L; S4 command then response at the stream's root path, mode threaded, no own "
              "termination; S5 separate_events cuts exactly at root-path MarshalEvents and events_to_objs alternates and carries "
              "the command code into exactly the next message (decision lists on the path summaries of one loop iteration); S6 = "
-             "C05-E3: a stream ends silently only at a message boundary. Equality of concatenated event lists is not decided. S6 also requires that the silent end-of-stream return exists. S5 also recognises the index-slicing form of separate_events (starts at root events, last slice to the end). S2/S3 judge the encryption request in a normal form (tpmsa.encreq): whatever functions, methods or keyword bundles compute it are evaluated symbolically to (value without session area, value when a session sets the bit, value when none does) for one area and one bit; required (None, True, None) on the command's own area with `encrypt`. S7 (= C07-NI-2) the mode flag is handed down on every call from the pump to the message walkers. S8 (= C15-F5) front-ends that cut a capture into messages take the boundaries from the header's size field and drop nothing but runts below the header size.",
+             "C05-E3: a stream ends silently only at a message boundary. Equality of concatenated event lists is not decided. S6 also requires that the silent end-of-stream return exists. S5 also recognises the index-slicing form of separate_events (starts at root events, last slice to the end). S2/S3 judge the encryption request in a normal form (tpmsa.encreq): whatever functions, methods or keyword bundles compute it are evaluated symbolically to (value without session area, value when a session sets the bit, value when none does) for one area and one bit; required (None, True, None) on the command's own area with `encrypt`. S7 (= C07-NI-2) the mode flag is handed down on every call from the pump to the message walkers. S8 (= C15-F5) front-ends that cut a capture into messages take the boundaries from the header's size field and drop nothing but runts below the header size. S9 (= C15-F6) the swtpm-log scanner makes one message of every SWTPM_IO record.",
         note="trusted: CPython ast; C01-W5 (child paths extend the parent) for the unambiguity of the cut.",
         technique="def-use on abstract traces (partial evaluation) + shape rules on the pairing helpers",
         design="4/C09",
@@ -158,7 +158,7 @@ CHECKS = {
              "with no byte request in between. T2: the buffer parameters of the pump and of the three lazy front-end "
              "scanners are used only through iter()/next() (except inside raise). T3: the processor never receives the "
              "buffer or iterator. T6: a scanner starts one traversal of its raw source only (bytes / lists restart). T5 (= C05-E3): the empty prefix of a non-stream decode reports depletion like every other "
-             "prefix. This is the structural core of the property; concrete pull counts are its dynamic view. T6 also: next() only on an iterator made from the source (never on the raw parameter). T7 (= C15-F11): a character obtained with next(it, default) reaches int(..., 16) only where the default was excluded. T2 also covers the front-end functions (hex / swtpm / auto marshal): no pre-read or materialisation of the caller's source. T8 no closure made in a loop over the sources reads its loop variable late (every reader would read the last source). T9 (= C19-L12) the file reader hands out every file to its end; T10 (= C03-R4) a decode starts from its own region list. T11 (= C11-A6 = C12-P2) the memo of the synthesised parameter-area type never evicts.",
+             "prefix. This is the structural core of the property; concrete pull counts are its dynamic view. T6 also: next() only on an iterator made from the source (never on the raw parameter). T7 (= C15-F11): a character obtained with next(it, default) reaches int(..., 16) only where the default was excluded. T2 also covers the front-end functions (hex / swtpm / auto marshal): no pre-read or materialisation of the caller's source. T8 no closure made in a loop over the sources reads its loop variable late (every reader would read the last source). T9 (= C19-L12) the file reader hands out every file to its end; T10 (= C03-R4) a decode starts from its own region list. T11 (= C11-A6 = C12-P2) the memo of the synthesised parameter-area type never evicts. T12 the file reader's test on `<file>.mode` holds for 'r' (sys.stdin, open(path): read through .buffer) and not for 'rb'.",
         note="trusted: CPython ast; Python iterator/generator protocol. pcapng.marshal materialises its input by design (documented in the code) and is outside T2.",
         technique="CFG + typestate abstract interpretation of the pump, who-may-use rules on iterator/buffer variables",
         design="4/C10",
@@ -172,7 +172,7 @@ CHECKS = {
              "tables and keys, recognise encrypted areas by TPM2B_ENCRYPTED_PARAM's field names, remember a Response's command "
              "code; A5 sibling rule: every node the decoder announces with an event but returns as None is mapped to None by "
              "the events->object builder too; A7 (= C01-W7) a union arm without payload decodes to None. A1-A5 are decided on path summaries (hidden / marker / list parent / value per field "
-             "as a decision list), not on the text of the branches. These are necessary conditions; the round trips themselves are not decided. A8: no unbound local / undefined name in common/object.py. A9 (= C19-L9 = C15-F2) every front-end returns the decoder's result; A2 folds the union test of obj_to_events over every layout class; A4 finds the member-type resolver by role (closure or function handed the caller's variables). A1's set of invisible members may be any literal collection. A10 (= C09-S5) the objects of a stream are rebuilt message by message with the pairing of C09. A11 (= C01-F) per tag / response code the message walkers decode exactly the fields the layout has for that case (absent areas emit nothing).",
+             "as a decision list), not on the text of the branches. These are necessary conditions; the round trips themselves are not decided. A8: no unbound local / undefined name in common/object.py. A9 (= C19-L9 = C15-F2) every front-end returns the decoder's result; A2 folds the union test of obj_to_events over every layout class; A4 finds the member-type resolver by role (closure or function handed the caller's variables). A1's set of invisible members may be any literal collection. A10 (= C09-S5) the objects of a stream are rebuilt message by message with the pairing of C09. A11 (= C01-F) per tag / response code the message walkers decode exactly the fields the layout has for that case (absent areas emit nothing). A12 the slots Canonical's constructor fills from its input are assigned later only where they are known to be empty (a Canonical built from an object keeps it).",
         note="trusted: CPython ast; L (E1); dataclass equality semantics.",
         technique="agreement (sibling) rules between decoder traces, the static layout model and the two converters",
         design="4/C11",
@@ -184,7 +184,7 @@ CHECKS = {
              "receiver is a module-level or class-level object; P2 every memoising decorator in reachable code is unbounded or "
              "has capacity >= the key space from L (234 parameter areas); P3 no mutable defaults, no module-level "
              "generators/iterators; P5 (= C09-S2) nothing the response decode of a stream is given is left over from an earlier pair. "
-             "Together with Python's determinism this is the property's structural core. P4: no caller mutates the result of a memoised function (checked on the unmodified source). P6 a mutable container written in a class body is not mutated through an instance that has no copy of its own; P7 (= C17-M3) a cache keyed by a layout value is typed. P8 (= C09-S3) the stream's encryption predicate answers for the command's own session area with the response direction's bit. P9 (= C15-F1) the arguments reach the decoder on every branch of every front-end.",
+             "Together with Python's determinism this is the property's structural core. P4: no caller mutates the result of a memoised function (checked on the unmodified source). P6 a mutable container written in a class body is not mutated through an instance that has no copy of its own; P7 (= C17-M3) a cache keyed by a layout value is typed. P8 (= C09-S3) the stream's encryption predicate answers for the command's own session area with the response direction's bit. P9 (= C15-F1) the arguments reach the decoder on every branch of every front-end. P10 (= C01-F) the encrypted layout is chosen for an area exactly when a session of that message asks for it in that direction.",
         note="trusted: CPython ast; call resolution by name over repo classes (over-approximation); a module-level instance of a "
              "repo class is followed through one local alias and through methods that return self, deeper aliasing is not tracked.",
         technique="call-graph reachability + effect (purity) analysis + memoisation capacity check against the static layout model",
@@ -195,7 +195,7 @@ CHECKS = {
         text="At each site of the pump that attaches remaining bytes to a ConstraintViolatedError, the attached expression "
              "is resolved (def-use, path-sensitive on the depleted flag) in every abstract state reaching it and must be "
              "exactly 'look-ahead byte iff FRESH, then the iterator'; every re-raise attaches to the same error first; "
-             "the overrun error is raised only after consume_bytes(size_max - size_already), in both modes. A3 also: no input is consumed on any path to an anticipated overrun error. A5 (= C07-NI-1) a caught constraint error is re-raised in strict mode, not wrapped. A6 (= C04-V1) no event of the rejected field precedes the strict value error (the bad field is not also among the emitted fields).",
+             "the overrun error is raised only after consume_bytes(size_max - size_already), in both modes. A3 also: no input is consumed on any path to an anticipated overrun error. A5 (= C07-NI-1) a caught constraint error is re-raised in strict mode, not wrapped. A6 (= C04-V1) no event of the rejected field precedes the strict value error (the bad field is not also among the emitted fields). A1 decides and / or tests with one decided operand; where the choice between two definitions of the attached bytes depends only on parameters of the pump, every alternative must be right.",
         note="trusted: CPython ast; itertools.chain/bytes semantics. The byte equation on concrete inputs is not decided.",
         technique="typestate abstract interpretation + path-sensitive reaching definitions at the attach sites",
         design="4/C13",
@@ -211,7 +211,7 @@ CHECKS = {
              "the folder never needs folding; Q4 row shape: indentation len(path)-1, value text form, hex column = binary "
              "re-encoding of that event (the row is compared as a function of the two column conditions on path summaries, colour "
              "codes stripped, nested f-strings and str.join flattened), attribute rows only from the main loop with path+PathNode(attr). The rendered text "
-             "is not decided. Q5 list folding mode by element type, one membership test (same enclosing path and field name), empty-list flag, the folder pulls; Q6 no unbound local / undefined name in the printers. Q7 no discarded generators in the printers; Q8 the byte buffer's translation table (folded) maps every byte to printable ASCII. Q6 also walks TPM_RC.__format__ / attributes() path by path (the symbolic walk of C18): a local read on a path that never assigned it is an UnboundLocalError for the codes of that path. Q9 (= C17-M2 accessor fold): the text form lists a field exactly when its accessor gives a non-zero number; Q4 falls back to the row fold of C17-M2 when attribute rows are not built in place. Q10 (= C17-M2, rows) the rows built in place are folded over every attribute type as well: one row per mask, value bits under the mask's ones, full width.",
+             "is not decided. Q5 list folding mode by element type, one membership test (same enclosing path and field name), empty-list flag, the folder pulls; Q6 no unbound local / undefined name in the printers. Q7 no discarded generators in the printers; Q8 the byte buffer's translation table (folded) maps every byte to printable ASCII. Q6 also walks TPM_RC.__format__ / attributes() path by path (the symbolic walk of C18): a local read on a path that never assigned it is an UnboundLocalError for the codes of that path. Q9 (= C17-M2 accessor fold): the text form lists a field exactly when its accessor gives a non-zero number; Q4 falls back to the row fold of C17-M2 when attribute rows are not built in place. Q10 (= C17-M2, rows) the rows built in place are folded over every attribute type as well: one row per mask, value bits under the mask's ones, full width. Q11 PathNode.__str__ evaluated for index None, 0, 1, 2 gives four different texts (a list, its first element and the others are told apart).",
         note="trusted: CPython ast; L (E1); C02-B2 for the hex column's content.",
         technique="must-dataflow (guard dominance) + typestate over the printer CFGs + FOLLOW-set facts from the static layout model",
         design="4/C14",
@@ -278,7 +278,7 @@ CHECKS = {
              "bytes and warn mode to the selected front-end and prints every item the selected printer yields (hex for bytes) "
              "with no cut in the loop; L4 the type search decodes strictly and catches exactly the documented error classes; "
              "L5 example output is under the command-code filter / exact-type selection and rendered from one event list. The "
-             "statement's observable (stdout / exit status of a process) is not decided. L2 the suggestion lookup cannot fail; L7 an eager Canonical has decoded inside its constructor with the arguments it was given, `type` lists the decoded type name (responses with their command code); L6 no unbound local / undefined name. L8 cc_name folded over all command codes gives the member's name; L7 also checks the plumbing of the type listing. L9 (= C15-F2) every front-end returns the decoder's result; L4 folds the tests on the candidate type over the layout's type listing (stream type and unions skipped, Response with every command code). L11 (= C11-A1) the members a message may lack are exactly those the object-to-events conversion leaves out; L4 follows candidate generators and command-code name tables; L7 accepts any whole-content read of args.file through a reader of tpmstream.io. L12 the file reader of tpmstream.io has no return inside and no break out of its loop over the files. L13 (= C15-F1) the options convert passes reach the decoder on every branch of every front-end. L14 (= C02-B2) the binary encoder skips events without a value before it looks at one (--out binary in warn mode).",
+             "statement's observable (stdout / exit status of a process) is not decided. L2 the suggestion lookup cannot fail; L7 an eager Canonical has decoded inside its constructor with the arguments it was given, `type` lists the decoded type name (responses with their command code); L6 no unbound local / undefined name. L8 cc_name folded over all command codes gives the member's name; L7 also checks the plumbing of the type listing. L9 (= C15-F2) every front-end returns the decoder's result; L4 folds the tests on the candidate type over the layout's type listing (stream type and unions skipped, Response with every command code). L11 (= C11-A1) the members a message may lack are exactly those the object-to-events conversion leaves out; L4 follows candidate generators and command-code name tables; L7 accepts any whole-content read of args.file through a reader of tpmstream.io. L12 the file reader of tpmstream.io has no return inside and no break out of its loop over the files. L13 (= C15-F1) the options convert passes reach the decoder on every branch of every front-end. L14 (= C02-B2) the binary encoder skips events without a value before it looks at one (--out binary in warn mode). L15 (= C15-F5) the pcapng cutter drops nothing but runts below the header size; L16 (= C10-T12) standard input (a text-mode file) is read through its byte buffer.",
         note="weakest claim: shape of __main__.py only; trusted: argparse semantics.",
         technique="table agreement + decision lists over path summaries of the CLI functions",
         design="4/C19",
